@@ -220,7 +220,7 @@ def run(tier, workers=None):
     from ..core import explore
 
     scfg = e1common.StoreCfg(kinds=("tree", "bare", "mem", "vdir"), names=("a.ics", "b.ics"), bodies=("X", "X2", "Z"), oracles={"C03"}, features={"etagargs", "restart"})
-    res = explore.explore(scfg.make, max_depth=2 if tier == "quick" else 4, workers=workers, max_states=4000)
+    res = explore.explore(scfg.make, max_depth=3 if tier == "quick" else 4, workers=workers, max_states=4000, budget_s=None if tier == "quick" else 180)
     for e in res.errors:
         rep.harness_error(e[:1500])
     for sig, e in res.violations.items():
